@@ -259,6 +259,13 @@ def check_format(out, c, base):
             tol = 0.5
         if abs(val - size) > tol:
             out.add(tag + "/parse-back", spec=spec, size=size, cell=cell, parsed=val, tolerance=tol)
+        elif "s" in c["flags"] and b == 1000 and mag > 0:
+            # read back WITHOUT knowing the specifier, by the documented unit table: a bare K / M / G / T is a binary
+            # unit there, while this text was produced on the decimal base (known finding K07)
+            as_literal = float(whole + ("." + frac if frac else "")) * 1024 ** mag
+            if abs(as_literal - size) > tol * (1024 ** mag) / mult:
+                out.add("C14/format/short-unit-on-decimal-base-reads-back-binary", spec=spec, size=size, cell=cell,
+                        read_back_as_literal=as_literal)
         if not fixed and mag > 0 and not (1 - 1e-9 <= val / mult < b * (1 + 1e-9)):
             pass  # choice of automatic unit is not asserted
         if prev is not None and val < prev[0] - 1e-9 * max(prev[0], 1):
